@@ -27,6 +27,8 @@ where
             Ok(_) => {}
             Err(i) => self.raw.insert(i, item),
         }
+        #[cfg(feature = "kiki_verif")]
+        verif_assert_strictly_ascending(&self.raw);
     }
 
     pub fn contains(&self, item: &T) -> bool {
@@ -45,6 +47,8 @@ where
         let mut raw: Vec<T> = iter.into_iter().collect();
         raw.sort();
         raw.dedup();
+        #[cfg(feature = "kiki_verif")]
+        verif_assert_strictly_ascending(&raw);
         Self { raw }
     }
 }
@@ -86,5 +90,19 @@ where
         self.raw.extend(iter);
         self.raw.sort_unstable();
         self.raw.dedup();
+        #[cfg(feature = "kiki_verif")]
+        verif_assert_strictly_ascending(&self.raw);
+    }
+}
+
+/// Verification hook: the backing vector must be strictly ascending
+/// (sorted, no duplicates) after every mutation.
+#[cfg(feature = "kiki_verif")]
+fn verif_assert_strictly_ascending<T: Ord>(raw: &[T]) {
+    crate::verif_hooks::count_oset_check();
+    if let Some(i) = raw.windows(2).position(|w| w[0] >= w[1]) {
+        let prefix = crate::verif_hooks::OSET_PANIC_PREFIX;
+        let len = raw.len();
+        panic!("{prefix} not strictly ascending at index {i} (len {len})");
     }
 }
